@@ -144,6 +144,7 @@ def timeout(duration, func, *args, **kwargs):
             # A student's exception class may refuse new attributes
             pass
         raise e.with_traceback(ei[2])
+    return target_thread.result
 
 
 # =========================================================================
